@@ -1,2 +1,5 @@
 import WrglModel.Props.C07
-#print axioms Wrgl.C07_placeholder
+#print axioms Wrgl.C07_packfiles_exact
+#print axioms Wrgl.C07_sender_order
+#print axioms Wrgl.C07_transfer_exact
+#print axioms Wrgl.C07_no_orphan_commit
